@@ -1256,7 +1256,18 @@ func oracleLedger(o *e2eOutcome, v vfn) {
 			// bytes acknowledged so far (deduplicated)
 			got = covered(recorded[k])
 			if need > 0 && got < need {
-				v("C08", "sent-only-when-all-bytes-acknowledged", "sent-logged-early", fmt.Sprintf("%s (hash %s) written to the sent log with %d of %d bytes acknowledged by the receiver", e.Name, e.S, got, need))
+				// known (same root as the C02 finding): the tracker adds up acknowledged BYTES per
+				// name, so a version that is in flight twice (queued again after a touch, or by the
+				// validation-retry path) reaches its size on parts that were acknowledged twice
+				var sum int64
+				for _, r := range recorded[k] {
+					sum += r.e - r.b
+				}
+				fp := "sent-logged-early"
+				if sum >= need {
+					fp = "sent-logged-on-byte-count-with-duplicate-parts"
+				}
+				v("C08", "sent-only-when-all-bytes-acknowledged", fp, fmt.Sprintf("%s (hash %s) written to the sent log with %d of %d bytes acknowledged by the receiver (counting repeats: %d)", e.Name, e.S, got, need, sum))
 			}
 		case "data_req":
 			if r := reqByID[e.Req]; r != nil {
